@@ -288,6 +288,17 @@ pub fn run(cfg: &Cfg) -> Report {
             st.inc("pairs_after_a_pending_join", 1);
         }
         let obs = format!("(call \"{me}\" (\"svc\" \"obs\") [:error:.$.error_code :error:.$.message %last_error%.$.error_code])");
+        // the observer may come after instructions of the right branch that contain a failure of their own
+        // (or none): "inside the right branch" the error object is still the one of the caught failure
+        let obs = match rng.below(12) {
+            0 => { st.label("handler_preludes", "par-without-failure"); format!("(seq (par (null) (null)) {obs})") }
+            1 => { st.label("handler_preludes", "par-containing-a-failure"); format!("(seq (par (fail 77 \"contained in the handler\") (null)) {obs})") }
+            2 => { st.label("handler_preludes", "stream-fold-containing-a-failure"); format!("(seq (par (null) (seq (ap \"hv\" $hs) (fold $hs hi (fail 78 \"contained in a handler fold\")))) {obs})") }
+            3 => { st.label("handler_preludes", "nested-xor-catching-a-mismatch"); format!("(seq (xor (match 1 2 (null)) (null)) {obs})") }
+            4 => { st.label("handler_preludes", "nested-xor-catching-a-failure"); format!("(seq (xor (fail 79 \"caught inside the handler\") (null)) {obs})") }
+            5 => { st.label("handler_preludes", "new-and-match"); format!("(seq (new hx (match 1 1 (null))) {obs})") }
+            _ => obs,
+        };
         let caught_f = format!("(xor {} {obs})", f.f);
         let build = |ctx: &str, hole: &str| {
             let mut parts = kpre.clone();
